@@ -212,8 +212,9 @@ PROPS = {
                      "truncated / non-object / null bodies and non-200 codes", ["outcome", "hook", "children"],
                      extra_streams=[rounds("malformed", 800, 8000, ["outcome-error", "hook-sync", "hook-finalize"])]),
     "C10": sync_prop(C10T + C10ST + ATOMT + [("Mc.Props.AtomicSem", "Mc.Atomic.C10_finalizer_edit_on_live")], ["update-parent", "hook-finalize", "create-child"],
-                     "non-trivial = the parent was edited, the finalize hook called, or a child created" + RULE_ROUNDS, ["finalizer", "parent", "hook", "children", "apimodel"],
-                     extra_streams=[rounds("faults", 96, 960, ["update-parent", "hook-finalize", "create-child", "failed-update"]),
+                     "non-trivial = the parent was edited, the finalize hook called, or a child created" + RULE_ROUNDS + RULE_INTERLEAVE, ["finalizer", "parent", "hook", "children", "apimodel"],
+                     extra_streams=[rounds("interleave", 600, 6000, ["update-parent", "hook-finalize", "create-child", "failed-update"]),
+                                    rounds("faults", 96, 960, ["update-parent", "hook-finalize", "create-child", "failed-update"]),
                                     rounds("rollout", 96, 480, ["update-parent", "hook-finalize", "create-child"])]),
 
     "C05": {
